@@ -65,7 +65,8 @@ def _phase(p):
 class KernelSet:
     """The three kernels of one problem, generated and JIT-compiled the way tensora does it."""
 
-    def __init__(self, assignment: str, formats: dict, capacity: int, backend_c: bool = False):
+    def __init__(self, assignment: str, formats: dict, capacity: int, backend_c: bool = False,
+                 separate=None):
         from returns.result import Failure, Success
         from tensora.compile import tensor_cdefs
         from tensora.compile._compile_llvm import compile_module
@@ -108,6 +109,7 @@ class KernelSet:
 
         old = signal.signal(signal.SIGALRM, _alarm)
         signal.setitimer(signal.ITIMER_REAL, GENERATION_BUDGET_S)
+        self.engines = None
         try:
             module, why = gen(kinds)
             if module is None:
@@ -119,6 +121,20 @@ class KernelSet:
             self.lib = None
             if backend_c:
                 self._compile_c(p, kinds)
+            elif separate:
+                # each kind generated and compiled on its own, in the plan's order (what three
+                # separate `tensora -t <kind>` requests give): the kinds must be mutually consistent
+                # however they are requested
+                self.engines = {}
+                for kname in separate:
+                    m1, why1 = gen([KernelType[kname]])
+                    if m1 is None:
+                        self.inconsistent_kinds = f"{kname} alone: {why1}"
+                        raise Skip("kinds_inconsistent")
+                    try:
+                        self.engines[kname] = compile_module(m1)
+                    except Exception as e:
+                        raise Skip("compile:" + type(e).__name__)
             else:
                 try:
                     self.engine = compile_module(module)
@@ -135,9 +151,13 @@ class KernelSet:
         if self.lib is not None:
             self.fn = {k: getattr(self.lib, k) for k in KINDS}
         else:
-            self.fn = {
-                k: tensor_cdefs.cast(sig, self.engine.get_function_address(k)) for k in KINDS
-            }
+            self.fn = {}
+            for k in KINDS:
+                addr = (self.engines[k] if self.engines else self.engine).get_function_address(k)
+                if not addr:
+                    self.inconsistent_kinds = f"module generated for [{k}] has no function {k}"
+                    raise Skip("kinds_inconsistent")
+                self.fn[k] = tensor_cdefs.cast(sig, addr)
         self.out_format = p.formats[self.out_name]
 
     def _compile_c(self, problem, kinds):
@@ -457,7 +477,7 @@ def _run_plan(plan, cfg=None):
     _phase("generate")
     try:
         ks = KernelSet(plan["problem"]["assignment"], plan["problem"]["formats"], plan["capacity"],
-                       bool(plan.get("backend_c")))
+                       bool(plan.get("backend_c")), plan.get("separate_modules"))
     except Skip as s:
         if str(s) == "kinds_inconsistent":
             res["verdict"] = "violation"
@@ -473,6 +493,8 @@ def _run_plan(plan, cfg=None):
     res["capacity_knob"] = ks.capacity_knob
     if plan.get("backend_c"):
         res["probes"] = {"kernels_compiled_from_c_text": 1}
+    elif plan.get("separate_modules"):
+        res["probes"] = {"kinds_generated_in_separate_modules": 1}
     twins = []
     stats = {}
     for t in (0, 1):
@@ -641,6 +663,8 @@ def _shrink_candidates(plan):
     def cp():
         return copy.deepcopy(plan)
 
+    if plan.get("separate_modules"):
+        p = cp(); p["separate_modules"] = None; yield p
     if plan["revalues"]:
         p = cp(); p["revalues"] = []; yield p
         if len(plan["revalues"]) > 1:
